@@ -163,6 +163,23 @@ def gen_jobs(rng, tier):
                 lambda c, p: c.update(overrides=[{"go_type": {"type": "T", "package": "p"}, "db_type": "x"}]), lambda c, p: c.update(rename={"": ""}),
                 lambda c, p: p.update(name="1bad"), lambda c, p: p.update(name=""), lambda c, p: p.update(emit_json_tags=True, json_tags_case_style="weird")):
         add("postgresql", SCHEMA_PG, "-- name: Q :one\nSELECT id, name FROM t;\n", cfg_extra=mod, tag="config:other")
+    # override / rename strings: every spelling of go_type (basic, pointer, slice, qualified, versioned path, garbage), of the
+    # column key and of db_type goes through config.ParseConfig and, if accepted, the generator
+    GO_TYPES = ["string", "*string", "**string", "[]byte", "*[]byte", "[]string", "int", "*int64", "interface{}", "*", "", ".", "*.", "a.", ".T", "a.b.c",
+                "github.com/x/y.T", "*github.com/x/y.T", "[]github.com/x/y.T", "github.com/x/y/v2.T", "gopkg.in/guregu/null.v3.String", "github.com/x/y", "github.com/x/y.",
+                "*github.com/x/y", "a/b.c.D", "time.Time", "*time.Time", "map[string]int", "func()", "é.T", " string", "string ", "string;", "uuid.UUID",
+                {"type": "T"}, {"import": "github.com/x/y", "type": "T"}, {"import": "github.com/x/y", "package": "z", "type": "*T"}, {"import": "", "type": ""},
+                {"import": "github.com/x/y", "type": "T", "pointer": True}, {}]
+    for gt in GO_TYPES:
+        for key in ({"db_type": "text"}, {"db_type": "text", "nullable": True}, {"column": "t.name"}):
+            add("postgresql", SCHEMA_PG, "-- name: Q :one\nSELECT id, name FROM t;\n",
+                cfg_extra=lambda c, p, g=gt, k=key: c.update(overrides=[dict(k, go_type=g)]), tag="config:go_type")
+    for col in ("", ".", "t.", ".name", "a.b.c.d", "*.name", "t.*", "public.t.name", "db.public.t.name", "t..name", "T.NAME", 'é.x'):
+        add("postgresql", SCHEMA_PG, "-- name: Q :one\nSELECT id, name FROM t;\n",
+            cfg_extra=lambda c, p, k=col: c.update(overrides=[{"go_type": "string", "column": k}]), tag="config:column")
+    for dbt in ("", "text[]", "pg_catalog.", ".text", "a.b.c", " text"):
+        add("postgresql", SCHEMA_PG, "-- name: Q :one\nSELECT id, name FROM t;\n",
+            cfg_extra=lambda c, p, k=dbt: c.update(overrides=[{"go_type": "string", "db_type": k}]), tag="config:db_type")
     # byte-level streams
     n = 5000 if tier == "quick" else 40000
     seeds = ["-- name: Q :one\n%s;\n" % s for s in PG_STATEMENTS]
